@@ -23,9 +23,13 @@ def _is_flags_read(n):
     return isinstance(n, ast.Attribute) and n.attr in FLAG_ATTRS and isinstance(n.ctx, ast.Load)
 
 
-def run(repo, res, rid, floor=5):
+def run(repo, res, rid, floor=5, scope=None):
+    from .common import in_scope
+
     sites = 0
     for mod, q, f in repo.all_funcs():
+        if not in_scope(scope, mod, q):
+            continue
         m = repo.mods[mod]
         d = None
         for n in own_nodes(f):
